@@ -56,6 +56,7 @@ pub fn gen_state(rng: &mut Rng, m128: bool) -> SnapState {
     s.banks[2][0x3DBD] = 0xFB;
     s.banks[2][0x3DBE] = 0xC9;
     s.frame_t = 0;
+    s.sna_trdos = if rng.bool() { 0 } else { rng.u8() & 3 };
     s
 }
 
